@@ -313,6 +313,23 @@ func c14Run(srv *c14Server, c c14Case) (res c14Result) {
 			}
 			outcome = fmt.Sprintf("channel %s: rejected=%v", kind, err != nil)
 			// (whether the connection is still served afterwards shows in the counter: it stays open on the client side)
+		case "channelburst":
+			if cn.state != "authed" {
+				break
+			}
+			// more channel opens in flight than the SSH library queues per connection (16), nobody waits for the answers
+			n := 18 + rng.Intn(12)
+			for k := 0; k < n; k++ {
+				kind := []string{"session", "session", "direct-tcpip"}[rng.Intn(3)]
+				go func() {
+					if ch, reqs, err := cn.client.OpenChannel(kind, nil); err == nil {
+						go gossh.DiscardRequests(reqs)
+						_ = ch
+					}
+				}()
+			}
+			time.Sleep(time.Duration(20+rng.Intn(50)) * time.Millisecond)
+			outcome = fmt.Sprintf("%d channel opens in flight", n)
 		case "close":
 			if cn.state != "authed" {
 				break
